@@ -79,6 +79,9 @@ type MsgOpts struct {
 	FixedAlg   *int64 // restrict all keys to this algorithm (cheap crypto)
 	Inject     bool   // sometimes leave alg out (no external data) so that signing must insert it
 	CrossCurve bool   // sometimes pair an ECDSA algorithm with a key on another curve
+	// PayloadLens, when set, replaces the usual payload length classes (payloads far beyond the CBOR
+	// head boundaries: whatever a library does differently for long content)
+	PayloadLens []int
 }
 
 func expand(seed []byte, n int) []byte {
@@ -189,7 +192,11 @@ func Msg(t *rapid.T, o MsgOpts) MsgSpec {
 	ext, isNil := drawExternal(t)
 	m.External, m.ExtNil = ext, isNil
 	hasExt := len(ext) > 0
-	m.Payload = Blob(t, "payload", BoundaryLen(t, "payloadlen", o.HugeLens))
+	if len(o.PayloadLens) > 0 {
+		m.Payload = Blob(t, "payload", rapid.SampledFrom(o.PayloadLens).Draw(t, "payloadlen-listed"))
+	} else {
+		m.Payload = Blob(t, "payload", BoundaryLen(t, "payloadlen", o.HugeLens))
+	}
 	if m.Payload == nil {
 		m.Payload = []byte{}
 	}
